@@ -224,7 +224,12 @@ func buildSens(c sensCase) *doctree.Node {
 	}
 	// bit 25: a list whose element repeats an earlier subtree (with aliasing on it is written "- *a") and
 	// a local reference that walks THROUGH that list element and on below it
-	limParam := obj().Set("name", str("lim")).Set("in", str("query")).Set("schema", numSchema.Clone())
+	// (a plain integer schema: the numeric schema of the sensitive values may be invalid on purpose, and a
+	// second component that reaches an invalid schema makes WHICH error ogen reports depend on Go map order)
+	limParam := obj().Set("name", str("lim2")).Set("in", str("query")).Set("schema", obj().Set("type", str("integer")).Set("description", str("through a list")))
+	if c.bit(25) {
+		params.A = append(params.A, limParam.Clone())
+	}
 	viaList := obj().Set("type", str("object")).Set("properties", obj().
 		Set("n", obj().Set("$ref", str("#/paths/~1thing4/get/parameters/0/schema"))))
 	thing4 := obj().Set("get", obj().Set("operationId", str("getThing4")).Set("parameters", doctree.NewArr(limParam)).
